@@ -104,6 +104,15 @@ func verifC16(plan func(context.Context, []schema.Change, ...migrate.PlanOption)
 	name := verifMarker("s", 'x', 'z')
 	sch := schema.New(name)
 	other := schema.New("w" + name)
+	if verifChoice("other-schema", 2) == 1 {
+		// any other name, also one that differs from the first only by letter case
+		o := verifString("o", 2)
+		for i := 0; i < len(o); i++ {
+			verifAssume(verifOr(verifAnd(o[i] >= 'x', o[i] <= 'z'), verifAnd(o[i] >= 'X', o[i] <= 'Z')))
+		}
+		verifAssume(o != name)
+		other = schema.New(o)
+	}
 	set := verifChoice("set", 12)
 	mode := verifChoice("qualifier", 5)
 	changes := verifChangeSet(set, sch, other)
